@@ -18,7 +18,7 @@ export RUSTFLAGS="--cfg a4lg_ffuzzy_verif" CARGO_NET_OFFLINE=true
 for prof in release relda; do
   cargo build --profile $prof -p harness --target-dir "$R/target" --config "paths=[\"$R/repo/ffuzzy\"]" > "$R/build.$prof.log" 2>&1 || { echo "BUILD FAILED ($prof)"; grep -E "^error" -A8 "$R/build.$prof.log" | head -30; exit 2; }
 done
-if echo " $* " | grep -q " C14 "; then
+if echo " $* " | grep -q -E " C14 | C04 "; then
   pids=()
   for c in f-default f-unsafe f-unchecked f-reduce-fnv f-unsafe-reduce-fnv f-strict f-nodefault; do
     for prof in release relda; do
